@@ -197,6 +197,7 @@ package astits
 //@   ensures [C11,C01] onebyte: err == nil ==> a.IsOneByteStuffing == (L == 0)
 //@   ensures [C11,C03] offset: err == nil ==> i.offset == o + consumed
 //@   ensures [C11] stuffing: err == nil ==> a.StuffingLength == L - (consumed - 1)
+//@   ensures [C11,C01] relen: err == nil && (hasExt ==> extLen > 0) && (hasPriv ==> privLen > 0) ==> afBytes(a) == 1 + L
 //@   ensures [C11,C06] disc: err == nil ==> a.DiscontinuityIndicator == (L > 0 && bit(fl, 0x80))
 //@   ensures [C11] rai: err == nil ==> a.RandomAccessIndicator == (L > 0 && bit(fl, 0x40))
 //@   ensures [C11] espi: err == nil ==> a.ElementaryStreamPriorityIndicator == (L > 0 && bit(fl, 0x20))
